@@ -138,6 +138,9 @@ def insertTy (x : Ty) : List Ty → List Ty
 
 def sortTys (xs : List Ty) : List Ty := xs.foldr insertTy []
 
+@[simp] theorem sortTys_nil : sortTys [] = [] := rfl
+@[simp] theorem sortTys_singleton (t : Ty) : sortTys [t] = [t] := rfl
+
 def mkTy (alts : List Ty) (hasNone : Bool) : Ty :=
   match dedup alts [], hasNone with
   | [a], false => a
